@@ -286,6 +286,9 @@ pub fn fork(kind: ForkKind, cfg_a: &Cfg, cfg_b: &Cfg, head_a: &[Op], head_b: &[O
         b.tag = a.tag;
         b.peer_next_id = a.peer_next_id;
     }
+    // harness-side pending state of the heads does not reach into the continuation
+    a.coalesce = None;
+    b.coalesce = None;
     a.w.trace = Some(vec![]);
     b.w.trace = Some(vec![]);
     let hs = cont.iter().take_while(|o| matches!(o, Op::SetAlt { .. } | Op::SwapSide)).count() + 2;
